@@ -627,17 +627,21 @@ def exec_fragment(world, contract, env):
     import copy as _copy
     pyfn, stmts = fragment_statements(world, contract)
     names = [k for k in env if k.isidentifier() and not k.startswith('_')]
-    src = "def __frag(__env):\n" + ''.join("    %s = __env[%r]\n" % (k, k) for k in names) + "    for __once in (0,):\n        pass\n    return locals()\n"
+    # the statements run as the body of a one-iteration loop; how they leave it (fall through / continue / break)
+    # is the fragment's outcome
+    src = ("def __frag(__env):\n" + ''.join("    %s = __env[%r]\n" % (k, k) for k in names) +
+           "    __outcome = 'break'\n    for __once in (0,):\n        pass\n        __outcome = 'completed'\n    else:\n"
+           "        if __outcome != 'completed':\n            __outcome = 'continue'\n    return locals()\n")
     mod = _ast.parse(src)
     fn = mod.body[0]
     loop = [s_ for s_ in fn.body if isinstance(s_, _ast.For)][0]
-    loop.body = [_copy.deepcopy(s_) for s_ in stmts]
+    loop.body = [_copy.deepcopy(s_) for s_ in stmts] + loop.body[1:]
     _ast.fix_missing_locations(mod)
     g = dict(getattr(pyfn, '__globals__', {}))
     exec(compile(mod, '<fragment:%s>' % getattr(contract, 'key', contract.qualname), 'exec'), g)
     try:
         loc = g['__frag'](dict(env))
-        return 'completed', loc
+        return loc.get('__outcome', 'completed'), loc
     except Exception as e:
         return 'raise:' + type(e).__name__, {'__exc__': repr(e)}
 
